@@ -165,7 +165,10 @@ def run(res, f, tier):
                 ob(False, key, "TryFrom<Value> for %s: a conversion the specification does not know" % dst)
         if len(samples) < 12:
             samples.append({"impl": "TryFrom<Value> for %s" % dst, "on Value::Int": [r for _, r in summarize(f, d, [("adt", VALUE, "Int", (("sym", "x.0"),))])[0]]})
+    import control
+    controls = control.hazard_controls()
     res.coverage = {
+        "positive_controls": controls,
         "obligations": obligations,
         "discharged": discharged,
         "checker_cmd": "python3 rules/check.py C17",
